@@ -136,7 +136,13 @@ def correspondence(ctx):
         ctx.sample({"E2": {"nodes_before": len(c["before"]["nodes"]), "nodes_after": len(c["after"]["nodes"]),
                            "queued": c["qfiles"], "dirs": c["qdirs"], "log": c["log"][:12]}})
     ctx.count("E2_cases", len(checks))
-    bad = common.run_cases(ctx, "e2", cc.HEADER, checks, chunk=60)
+    try:
+        bad = common.run_cases(ctx, "e2", cc.HEADER, checks, chunk=60)
+    except RuntimeError as e:
+        if not ctx.failures:
+            raise
+        ctx.notes.append(f"model side of E2 not evaluated (an obligation is already broken): {str(e)[:200]}")
+        bad = []
     ctx.traces_validated += len(checks) - len(bad)
     for i in bad[:3]:
         c = cases[i]
@@ -213,7 +219,15 @@ def _run_oracle(ctx, n, suffix=""):
                 seen.add(sig)
                 ctx.add_failure("oracle", "finalize", "oracle:" + sig + suffix, detail, witness=_wit(r))
         checks.append(cc.finalize_check(r))
-    bad = common.run_cases(ctx, "fin", cc.HEADER, checks, chunk=30)
+    try:
+        bad = common.run_cases(ctx, "fin", cc.HEADER, checks, chunk=30)
+    except RuntimeError as e:
+        # the oracle above does not depend on the model; with coq/gen stale or missing (translator failed closed)
+        # the comparison cannot be evaluated and the run goes on
+        if not ctx.failures:
+            raise
+        ctx.notes.append(f"model side of E1c not evaluated (an obligation is already broken): {str(e)[:200]}")
+        bad = []
     ctx.traces_validated += len(checks) - len(bad)
     ctx.count("E1c_cases", len(checks))
     for i in bad[:3]:
@@ -280,9 +294,9 @@ def _own_part(ctx, scale, suffix=""):
     """Trees with symbolic links (harness/clean_own.py), implementation only: every queued / orphaned output that
     still is exactly what the step left there is gone after the cleanup -- on hand-made queues, after
     Builder.finalize on projects grown through the Workflow API, and through the real serve()."""
-    co.run_families(ctx, 40 * scale, 20 * scale, 0, c06=False, c07=True, suffix=suffix)
+    co.run_families(ctx, 30 * scale, 16 * scale, 0, c06=False, c07=True, suffix=suffix)
     if cc.e3_available():
-        co.run_e3_replace(ctx, min(52, 8 * scale), c06=False, c07=True, suffix=suffix)
+        co.run_e3_replace(ctx, min(52, 6 * scale), c06=False, c07=True, suffix=suffix)
     # the real command line: a shell step that makes a data file and a symbolic link to it, then is dropped
     co.run_cli_link_pairs(ctx, ["target-sorts-after"] if scale == 1 else ["target-sorts-after", "target-sorts-before"],
                           suffix=suffix)
